@@ -214,7 +214,7 @@ var crashOpt = func(t *rapid.T, o *OptPlan) {
 }
 
 var profCrashDurable = Profile{
-	Name: "crash-durable", BigRecordPct: 6, SchedPct: 60, MinSteps: 8, MaxSteps: 35, DurableIngest: true, SyncPct: 45,
+	Name: "crash-durable", BlobIngestPct: 35, WALRelocate: true, BigRecordPct: 6, SchedPct: 60, MinSteps: 8, MaxSteps: 35, DurableIngest: true, SyncPct: 45,
 	W: map[string]int{"write": 40, "batch": 14, "bigbatch": 2, "flush": 6, "compact": 3, "wait": 3, "ingest": 4, "ingestexcise": 2, "excise": 1, "restart": 2},
 	OpW: opWDefault, CrashGen: crashGen(9),
 	Opt: func(t *rapid.T, o *OptPlan) { crashOpt(t, o); o.DisableWAL = false },
@@ -300,7 +300,7 @@ func execProvOutcome(p *ProvPlan) (evid.Outcome, error) {
 }
 
 var profCrashPrefix = Profile{
-	Name: "crash-prefix", BigRecordPct: 6, SchedPct: 60, MinSteps: 10, MaxSteps: 40, DurableIngest: true, SyncPct: 12,
+	Name: "crash-prefix", BlobIngestPct: 35, WALRelocate: true, BigRecordPct: 6, SchedPct: 60, MinSteps: 10, MaxSteps: 40, DurableIngest: true, SyncPct: 12,
 	W: map[string]int{"write": 30, "batch": 26, "bigbatch": 2, "flush": 4, "compact": 2, "wait": 3, "ingest": 2, "restart": 1, "crashrestart": 5},
 	OpW: map[string]int{"set": 22, "del": 12, "merge": 16, "delrange": 10, "sdel": 8, "delsized": 4, "rkset": 6, "rkunset": 3, "rkdel": 2, "logdata": 1},
 	CrashGen: crashGen(11),
@@ -342,7 +342,7 @@ func TestC11(t *testing.T) {
 }
 
 var profCrashFlush = Profile{
-	Name: "crash-flush", BigRecordPct: 6, SchedPct: 60, MinSteps: 8, MaxSteps: 30, DurableIngest: true, SyncPct: 1,
+	Name: "crash-flush", WALRelocate: true, BigRecordPct: 6, SchedPct: 60, MinSteps: 8, MaxSteps: 30, DurableIngest: true, SyncPct: 1,
 	W: map[string]int{"write": 40, "batch": 14, "flush": 12, "compact": 3, "wait": 4, "restart": 6, "ingest": 2},
 	OpW: opWDefault, CrashGen: crashGen(9),
 	Opt: func(t *rapid.T, o *OptPlan) {
@@ -396,7 +396,7 @@ func TestC13(t *testing.T) {
 }
 
 var profManifest = Profile{
-	Name: "manifest", SchedPct: 60, MinSteps: 8, MaxSteps: 26, DurableIngest: true, SyncPct: 30,
+	Name: "manifest", BlobIngestPct: 35, WALRelocate: true, SchedPct: 60, MinSteps: 8, MaxSteps: 26, DurableIngest: true, SyncPct: 30,
 	W: map[string]int{"write": 30, "batch": 10, "flush": 16, "compact": 10, "wait": 4, "ingest": 10, "ingestexcise": 4, "excise": 3, "restart": 2},
 	OpW: opWDefault,
 	CrashGen: func(t *rapid.T, o OptPlan) *CrashPlan {
@@ -481,7 +481,7 @@ func TestC38(t *testing.T) {
 }
 
 var profIngest = Profile{
-	Name: "ingest", MinSteps: 12, MaxSteps: 55, IterOpsMax: 5, MaxIters: 3, MaxSnaps: 2, MaxEFOS: 1,
+	Name: "ingest", BlobIngestPct: 30, MinSteps: 12, MaxSteps: 55, IterOpsMax: 5, MaxIters: 3, MaxSnaps: 2, MaxEFOS: 1,
 	W: map[string]int{"write": 26, "batch": 8, "flush": 4, "compact": 3, "wait": 3, "ingest": 18, "ingestexcise": 8, "excise": 6, "get": 8, "scan": 8,
 		"iternew": 5, "iterop": 10, "iterclose": 2, "snap": 2, "snapread": 3, "snapclose": 1, "restart": 1, "efos": 1, "efosread": 2, "efosclose": 1},
 	OpW: opWDefault,
@@ -547,7 +547,7 @@ func TestC33(t *testing.T) {
 }
 
 var profValSep = Profile{
-	Name: "valsep", MinSteps: 12, MaxSteps: 55, IterOpsMax: 6, MaxIters: 2, MaxSnaps: 1, DurableIngest: true,
+	Name: "valsep", BlobIngestPct: 35, MinSteps: 12, MaxSteps: 55, IterOpsMax: 6, MaxIters: 2, MaxSnaps: 1, DurableIngest: true,
 	W: map[string]int{"write": 34, "batch": 12, "flush": 9, "compact": 8, "wait": 5, "get": 10, "scan": 10, "restart": 2, "ingest": 2,
 		"iternew": 3, "iterop": 6, "iterclose": 1, "snap": 1, "snapread": 2, "snapclose": 1, "crashrestart": 1},
 	OpW: map[string]int{"set": 50, "del": 6, "merge": 6, "delrange": 3, "sdel": 2, "delsized": 2, "rkset": 2},
